@@ -545,6 +545,8 @@ def c26(ctx):
     run_table(ctx, "WebRtcSignal", "signal", judge, driver="webrtc", extra_args=["-mode", "signal"])
     cases, r = ctx.tlc_table("fn/Opener")
     conv = [{"a": "".join("ab"[v - 1] for v in c["a"]), "b": "".join("ab"[v - 1] for v in c["b"]), "aopens": c["aopens"]} for c in cases]
+    # the same pairs over an alphabet whose two letters differ only in case (base58 peer ids are case-sensitive)
+    conv += [{"a": "".join("aA"[v - 1] for v in c["a"]), "b": "".join("aA"[v - 1] for v in c["b"]), "aopens": None} for c in cases]
     conv += [{"a": "real:%d" % k, "b": "real:%d" % (k + 1), "aopens": None} for k in range(100 if ctx.tier == "quick" else 2000)]
     cpath, opath = os.path.join(ctx.tmp, "offerer_cases.json"), os.path.join(ctx.tmp, "offerer_obs.ndjson")
     json.dump(conv, open(cpath, "w"))
